@@ -23,9 +23,9 @@ RULE = ("case = buffer size + drawing program (text/erase/skip/char/hline/vline/
         "far coordinates).  A case is non-trivial when its last dump holds a non-skip cell, a mask or a non-empty stack; "
         "distinct = distinct (set of op kinds, span-structure shape of the last dump).")
 ASSUMPTIONS = ["no int overflow (|coordinate| < 2^30)",
-               "texts are valid UTF-8 over printable ASCII, U+00A1-00FF, U+0300-036F (width 0), U+FF01-FF60 (width 2), "
-               "plus C0/C1 controls as the invalid class; other code points are outside the model's width function",
-               "pens carry only fg, bg, bold, underline (the model's four attributes)",
+               "texts are well-formed UTF-8: any code points 1..0x1FFFFF (one to four bytes; the width function is the "
+               "library's own, property C07; C0/C1 controls and DEL make a string invalid)",
+               "pens carry any of the ten attributes over their representable values, colours with or without an RGB8 secondary (the pen algebra is property C19's)",
                "line styles 1..3, caps 0..3; buffers have at least one line and one column"]
 TRUSTED = ["model coq/RBDefs.v hand-written after src/renderbuffer.c (drawing part); specification coq/RBSpec.v "
            "(per-cell grid operations, abs, boolean WF and equality checkers)",
@@ -48,6 +48,18 @@ def gen(tier, seed, info):
     info["exhaustive"] = True
     info["exhaustive_scope"] = "all programs of 1..3 ops over a %d-op alphabet on a 2x6 buffer" % len(ALPHABET)
     info["exhaustive_cases"] = n
+    # every boundary of the library's width tables (both ends of every interval of combining[], fullwidth[] and
+    # the hard-coded wide ranges, and their outer neighbours), Hangul medials, soft hyphen, 4-byte code points:
+    # once inside a text that is then cut, once as a single character
+    nw = 0
+    for w in (0, 1, 2):
+        for c in rbgen.EXOTIC[w]:
+            nw += 1
+            yield rbgen.case_line(1, 7, ["txa 0 0 41.%x.42.%x" % (c, c), "cha 0 2 78", "cha 0 5 %x" % c, "D"])
+    for c in rbgen.BAD + [0x200000 - 1]:
+        nw += 1
+        yield rbgen.case_line(1, 7, ["txa 0 0 41.%x.42" % c, "go 0 1", "ch %x" % c, "D"])
+    info["width_table_boundary_cases"] = nw
     rnd = random.Random(seed * 1000003 + 3)
     nrand = 6000 if tier == "quick" else 300000
     nmal = 1000 if tier == "quick" else 30000
